@@ -89,6 +89,11 @@ def cases(rng, tier):
     for bad in ["h", "ccx", "unbound_rzz", "unbound_cp", "opaque2q", "measure", "barrier2", "unbound_unitary_like",
                 "mcphase2", "mcphase3", "mcu1_2", "phase_ctrl2"]:
         yield ("refuse", {"gate": bad})
+    # wrapped two-qubit operations (lazy inverse / power annotations, a gate inside a one-instruction definition): the package may refuse them
+    # or support them, but a basis it hands out must decompose the instruction it was asked for, not the operation inside the wrapper
+    for wrapped in ["annot_inv:dcx", "annot_inv:rzz", "annot_inv:cs", "annot_inv:iswap", "annot_pow3:rxx", "annot_powhalf:cz", "annot_inv:crz",
+                    "annot_inv:cx"]:
+        yield ("refuse", {"gate": wrapped, "or_exact": True, "always_oracle": True})
 
 
 def _gate(payload):
@@ -126,6 +131,12 @@ def _gate(payload):
             except Exception:
                 return MCPhaseGate(0.7, 2)
         return MCPhaseGate(0.7, 2 if n == "mcphase2" else 3)
+    if n.startswith("annot_"):
+        from qiskit.circuit import AnnotatedOperation, InverseModifier, PowerModifier
+        how, base = n.split(":")
+        g0 = canon.mk_op(base, {"rzz": [0.4], "rxx": [0.4], "crz": [0.9]}.get(base, ()))
+        mod = {"annot_inv": InverseModifier(), "annot_pow3": PowerModifier(3), "annot_powhalf": PowerModifier(0.5)}[how]
+        return AnnotatedOperation(g0, mod)
     if n == "unbound_rzz":
         return RZZGate(Parameter("t"))
     if n == "unbound_cp":
@@ -217,6 +228,12 @@ def run_real(kind, payload):
     _edit_first(payload)
     b = QPDBasis.from_instruction(g)
     if kind == "refuse":
+        if payload.get("or_exact"):
+            from qiskit.quantum_info import Operator
+            err = float(np.abs(channel.basis_ptm(b) - channel.ptm2_kraus([Operator(g).data])).max())
+            if err <= 1e-7:
+                return {"error": "ValueError", "note": "supported and exact"}  # as good as a refusal for this clause
+            return {"ok": f"basis produced that is not exact for the wrapped instruction (error {err:.3e})"}
         return {"ok": "basis produced"}
     res = {"coeffs": [float(c) for c in b.coeffs], "kappa": float(b.kappa), "maps": _canon_maps(b.maps, kind == "kak")}
     if kind == "kak":
@@ -298,6 +315,17 @@ def oracle(kind, payload):
     from ..oracles import channel
     from qiskit_addon_cutting.qpd import QPDBasis
     g = _gate(payload)
+    if kind == "refuse" and payload.get("or_exact"):
+        from qiskit.quantum_info import Operator
+        try:
+            b = QPDBasis.from_instruction(g)
+        except ValueError:
+            return None
+        except Exception as ex:
+            return f"wrapped instruction {payload['gate']} raised {type(ex).__name__} instead of ValueError"
+        err = float(np.abs(channel.basis_ptm(b) - channel.ptm2_kraus([Operator(g).data])).max())
+        return None if err <= 1e-7 else (f"the basis handed out for the wrapped instruction {payload['gate']} is not an exact decomposition of it: "
+                                         f"max transfer-matrix error {err:.3e}")
     if kind == "refuse":
         try:
             QPDBasis.from_instruction(g)
